@@ -96,6 +96,36 @@ def cliBound : List String :=
 theorem options_covered :
     Verif.Gen.CliFlags.optionFields.all (fun f => libraryOnly.contains f || cliBound.contains f) = true := by decide
 
+/-- the option-struct values of cmd/minify (regenerated through the type checker; a value is named after what it is — `html`,
+    `html+TemplateDelims=…` for a copy of `html` with that field assigned — not after its variable): the six option structs the flags are bound to,
+    and the three template flavours (ASP/EJS, PHP, Go/mustache/handlebars templates), each of which is defined as a **copy
+    of `htmlMinifier`** with nothing but `TemplateDelims` assigned afterwards — so every `--html-*` flag reaches every
+    HTML-derived media type; and the media types each value is registered for.  A template flavour built from a fresh
+    `html.Minifier{…}` (flags silently ignored for .php/.asp/.ejs/.tmpl/… inputs) changes this list. -/
+theorem cli_registry_ok :
+    Verif.Gen.CliFlags.registry =
+      ["def css := css.Minifier{}",
+       "def html := html.Minifier{}",
+       "def html+TemplateDelims=[2]string{\"<%\", \"%>\"} := copy of html",
+       "def html+TemplateDelims=[2]string{\"<?\", \"?>\"} := copy of html",
+       "def html+TemplateDelims=[2]string{\"{{\", \"}}\"} := copy of html",
+       "def js := js.Minifier{}",
+       "def json := json.Minifier{}",
+       "def svg := svg.Minifier{}",
+       "def xml := xml.Minifier{}",
+       "reg \"application/x-httpd-php\" -> html+TemplateDelims=[2]string{\"<?\", \"?>\"}",
+       "reg \"image/svg+xml\" -> svg",
+       "reg \"text/asp\" -> html+TemplateDelims=[2]string{\"<%\", \"%>\"}",
+       "reg \"text/css\" -> css",
+       "reg \"text/html\" -> html",
+       "reg \"text/x-ejs-template\" -> html+TemplateDelims=[2]string{\"<%\", \"%>\"}",
+       "reg \"text/x-go-template\" -> html+TemplateDelims=[2]string{\"{{\", \"}}\"}",
+       "reg \"text/x-handlebars-template\" -> html+TemplateDelims=[2]string{\"{{\", \"}}\"}",
+       "reg \"text/x-mustache-template\" -> html+TemplateDelims=[2]string{\"{{\", \"}}\"}",
+       "reg regexp \"[/+]json$\" -> json",
+       "reg regexp \"[/+]xml$\" -> xml",
+       "reg regexp \"^(application|text)/(x-)?(java|ecma|j|live)script(1\\\\.[0-5])?$|^module$\" -> js"] := by decide
+
 /-! ## where the options are consulted (regenerated) -/
 
 /-- every read or write of an option field in the six minifier packages, with its context (regenerated from the
